@@ -34,7 +34,11 @@ ASSUMPTIONS = [
     'no concurrency inside a call; no reflection/monkey-patching; attribute lookup = instance dict, class, property',
     'dict preserves insertion order; list.index/in use identity-or-__eq__',
     'fresh objects are distinct from every object reachable in the pre-state (allocation counter alloc0)',
-    'A-ALLOC: a callee under contract allocates fewer than 2^20 objects',
+    'A-ALLOC: a callee under contract allocates fewer than 2^20 objects; one symbolic iteration allocates fewer than 2^20 '
+    'objects per element; the iterations of one loop verified by invariant allocate fewer than 2^28 objects',
+    'attributes are assigned before they are read (reading an unassigned attribute of a new object is not modelled)',
+    'loop invariants, frames (modifies) and abstract result names in contracts are checked, not assumed; tier-none '
+    'contracts and the builtin models of pyvc/builtins.py are assumed',
     'A-EXACT: objects have exactly the classes of contracts/types.py (no user subclasses of model classes; '
     'renderer classes are the two default ones wherever a contract fixes cls)',
     'A-MSG: building the message of a raised exception (f-string with str()/repr() of model objects) succeeds and has no effect',
